@@ -252,6 +252,9 @@ struct Tie {
     stab_cases: Vec<(String, Value)>,
     triv_cases: Vec<(String, Value)>,
     formula_mismatch: Vec<Value>,
+    trial_mismatch: Vec<Value>,
+    trial_goals: Vec<(String, Value)>,
+    n_trials_compared: usize,
     n_ss_steps: usize,
     n_newton_steps: usize,
     n_newton_direct: usize,
@@ -352,6 +355,51 @@ fn tie_feed<E: Residual>(feed: &State<E>, key: &Value, opts_i: usize, tie: &mut 
                 continue;
             }
         };
+        // ---- the trial state against the model of define_trial_state: composition (TpdC07.trial_liquid / trial_vapor) and the state
+        // of aggregation it is created in (liquid-like for the N nearly pure trials, vapour-like for the ideal-vapour estimate)
+        {
+            let xt: Vec<f64> = if i == n {
+                let yv: Vec<f64> = (0..n).map(|j| pz[j].exp() * z[j]).collect();
+                let sy: f64 = yv.iter().sum();
+                yv.iter().map(|v| v / sy).collect()
+            } else {
+                let f = (1.0 - 0.99) / (z.iter().sum::<f64>() - z[i]);
+                (0..n).map(|j| if j == i { 0.99 } else { z[j] * f }).collect()
+            };
+            let init = if i == n { DensityInitialization::Vapor } else { DensityInitialization::Liquid };
+            let xs = t0.molefracs.to_vec();
+            let dx = (0..n).map(|j| (xs[j] - xt[j]).abs()).fold(0.0, f64::max);
+            let expected = run_guard(|| State::new_npt(&feed.eos, feed.temperature, feed.pressure(Contributions::Total), &Moles::from_reduced(Array1::from_vec(xt.clone())), init));
+            tie.n_trials_compared += 1;
+            let rho = t0.density.to_reduced();
+            let mut bad = Vec::new();
+            if !(dx <= 1e-14) {
+                bad.push(format!("composition {xs:?} instead of {xt:?}"));
+            }
+            match &expected {
+                Ok(e) => {
+                    let re = e.density.to_reduced();
+                    if !((rho - re).abs() <= 1e-9 * re) {
+                        bad.push(format!("density {rho} instead of the {} root {re} of the trial composition at the feed's (T, p)", if i == n { "vapour-like" } else { "liquid-like" }));
+                    }
+                }
+                Err(e) => bad.push(format!("the {} state of the trial composition does not exist ({e}) but a trial state was created", if i == n { "vapour-like" } else { "liquid-like" })),
+            }
+            if !bad.is_empty() {
+                tie.trial_mismatch.push(json!({"key": key, "trial": i, "what": bad.join("; ")}));
+            }
+            if tie.trial_goals.len() < tie.max_step_goals && xs.iter().all(|x| *x > 0.0) {
+                let mut v = String::new();
+                for j in 0..n {
+                    if i == n {
+                        v.push_str(&format!("Goal Rabs (nth {j} (trial_vapor {} {}) 0 - dy_R {}%Z) <= 1e-14.\nProof. tpd_interval. Qed.\n", rlist(&z), rlist(&pz), dyadic(xs[j])));
+                    } else {
+                        v.push_str(&format!("Goal Rabs (nth {j} (trial_liquid {} {i}) 0 - dy_R {}%Z) <= 1e-14.\nProof. tpd_interval. Qed.\n", rlist(&z), dyadic(xs[j])));
+                    }
+                }
+                tie.trial_goals.push((v, json!({"key": key, "trial": i, "x": xs})));
+            }
+        }
         let mut tr = t0.clone();
         let r = run_guard(|| feed.verif_minimize_tpd(&mut tr, opts));
         let (outcome, it): ((i64, Option<f64>), usize) = match &r {
@@ -717,6 +765,64 @@ fn pcsaft(names: &[&str]) -> Arc<PcSaft> {
     Arc::new(PcSaft::new(Arc::new(p)))
 }
 
+
+/// PC-SAFT records of gross2001.json with one binary interaction parameter k_ij for all pairs
+fn pcsaft_kij(names: &[&str], kij: f64) -> Arc<PcSaft> {
+    let p = PcSaftParameters::from_json(names.to_vec(), format!("{}/pcsaft/gross2001.json", configs::params()), None, IdentifierOption::Name).unwrap();
+    Arc::new(PcSaft::new(Arc::new(configs::with_kij(&p, kij))))
+}
+
+/// critical data (T_c / K, p_c / Pa, acentric factor, M / g/mol) of some close-boiling compounds for Peng-Robinson mixtures with a
+/// freely chosen (also negative) binary interaction parameter
+const PR_TABLE: [(&str, f64, f64, f64, f64); 7] = [
+    ("acetone", 508.1, 4.70e6, 0.307, 58.08),
+    ("chloroform", 536.4, 5.47e6, 0.222, 119.38),
+    ("benzene", 562.05, 4.895e6, 0.2103, 78.11),
+    ("cyclohexane", 553.6, 4.075e6, 0.2096, 84.16),
+    ("methyl acetate", 506.55, 4.75e6, 0.331, 74.08),
+    ("hexane", 507.6, 3.025e6, 0.301, 86.18),
+    ("2-butanone", 535.5, 4.15e6, 0.323, 72.11),
+];
+
+fn pr_kij(names: &[&str], kij: f64) -> Arc<PengRobinson> {
+    use feos_core::cubic::{PengRobinsonParameters, PengRobinsonRecord};
+    use feos_core::parameter::{Identifier, PureRecord};
+    let recs: Vec<_> = names
+        .iter()
+        .map(|n| {
+            let r = PR_TABLE.iter().find(|r| r.0 == *n).unwrap();
+            PureRecord::new(Identifier::default(), r.4, PengRobinsonRecord::new(r.1, r.2, r.3))
+        })
+        .collect();
+    let n = names.len();
+    let mut k = ndarray::Array2::zeros((n, n));
+    for i in 0..n {
+        for j in 0..n {
+            if i != j {
+                k[[i, j]] = kij;
+            }
+        }
+    }
+    Arc::new(PengRobinson::new(Arc::new(PengRobinsonParameters::from_records(recs, Some(k)).unwrap())))
+}
+
+/// composition with one component present only in traces (10^-6 .. 10^-20)
+fn trace_composition(n: usize, rng: &mut Rng) -> Vec<f64> {
+    let k = rng.below(n);
+    let xt = 10f64.powf(-rng.range(6.0, 20.0));
+    let rest = random_composition(n - 1, rng);
+    let mut v = Vec::new();
+    let mut it = rest.into_iter();
+    for i in 0..n {
+        if i == k {
+            v.push(xt);
+        } else {
+            v.push(it.next().unwrap() * (1.0 - xt));
+        }
+    }
+    v
+}
+
 fn tc_of<E: Residual>(eos: &Arc<E>) -> Option<f64> {
     run_guard(|| State::critical_point(eos, None, None, SolverOptions::default())).ok().map(|s| s.temperature.to_reduced())
 }
@@ -841,7 +947,13 @@ fn mixture_point<E: Residual>(
         }
     }
     // 2 % inside
-    let (lo, hi) = (pd * (1.0 + MARGIN), pb * (1.0 - MARGIN));
+    let (mut lo, mut hi) = (pd * (1.0 + MARGIN), pb * (1.0 - MARGIN));
+    if lo > hi && sp.frac.is_none() {
+        // envelope narrower than the two pressure margins (close-boiling / azeotropic systems): the margin is then 2 % of the way
+        // between dew and bubble pressure, but at least 0.1 % in pressure
+        lo = (pd + MARGIN * (pb - pd)).max(pd * 1.001);
+        hi = (pb - MARGIN * (pb - pd)).min(pb * 0.999);
+    }
     let p_frac = sp.frac.map(|f| pd + f * (pb - pd));
     if lo <= hi && p_frac.map(|p| p >= lo && p <= hi).unwrap_or(true) {
         counts[2] += 1;
@@ -955,6 +1067,15 @@ fn run_spec(sysname: &str, spec: &Value, guess: Option<&Value>) -> (Vec<Value>, 
         go(&pcsaft(&names), sysname, spec, guess, &mut tally, &mut goals, &mut failures, &mut counts, &mut sw);
     } else if let Some(n) = sysname.strip_prefix("peng_robinson:") {
         go(&Arc::new(configs::peng_robinson(n.parse().unwrap())), sysname, spec, guess, &mut tally, &mut goals, &mut failures, &mut counts, &mut sw);
+    } else if let Some(rest) = sysname.strip_prefix("pcsaft_kij:") {
+        // "pcsaft_kij:<k_ij>:a|b"
+        let (k, names) = rest.split_once(':').unwrap();
+        let names: Vec<&str> = names.split('|').collect();
+        go(&pcsaft_kij(&names, k.parse().unwrap()), sysname, spec, guess, &mut tally, &mut goals, &mut failures, &mut counts, &mut sw);
+    } else if let Some(rest) = sysname.strip_prefix("pr_kij:") {
+        let (k, names) = rest.split_once(':').unwrap();
+        let names: Vec<&str> = names.split('|').collect();
+        go(&pr_kij(&names, k.parse().unwrap()), sysname, spec, guess, &mut tally, &mut goals, &mut failures, &mut counts, &mut sw);
     }
     (failures, json!({"states_analysed": tally.analysed, "verdicts_by_kind_[stable,unstable,error]": tally.by_kind, "flashes_attempted": tally.flashes, "flashes_found": tally.flash_ok,
         "flashes_with_initial_state": sw.combos, "flashes_with_initial_state_found": sw.ok}))
@@ -1107,6 +1228,53 @@ fn main() {
             }
         }
     }
+    // close-boiling pairs with a binary interaction parameter of either sign (negative k_ij: negative deviations from Raoult's law,
+    // pressure-minimum azeotropes; positive: pressure-maximum azeotropes), Peng-Robinson and PC-SAFT
+    {
+        let pr_pairs: Vec<[&str; 2]> = if full { vec![["acetone", "chloroform"], ["benzene", "cyclohexane"], ["methyl acetate", "acetone"], ["hexane", "2-butanone"], ["chloroform", "2-butanone"]] }
+            else { vec![["acetone", "chloroform"], ["benzene", "cyclohexane"]] };
+        let pc_pairs: Vec<[&str; 2]> = if full { vec![["benzene", "cyclohexane"], ["hexane", "2-methylpentane"], ["toluene", "heptane"], ["pentane", "isopentane"]] }
+            else { vec![["benzene", "cyclohexane"], ["hexane", "2-methylpentane"]] };
+        let n_k = if full { 5 } else { 2 };
+        let n_p = if full { 6 } else { 3 };
+        for pair in &pr_pairs {
+            for ki in 0..n_k {
+                // the first k_ij of every pair is negative
+                let kij = ((if ki == 0 { rng.range(-0.08, -0.02) } else { rng.range(-0.08, 0.06) }) * 1e4).round() / 1e4;
+                let eos = pr_kij(&pair[..], kij);
+                let tlow = pair.iter().map(|n| PR_TABLE.iter().find(|r| r.0 == *n).unwrap().1).fold(f64::INFINITY, f64::min);
+                let nm = format!("pr_kij:{kij}:{}", pair.join("|"));
+                systems.push(nm.clone());
+                for pi in 0..n_p {
+                    let mut sp = spec(&mut rng, tlow, 2);
+                    sp.t = tlow * rng.range(0.55, 0.9);
+                    if pi < 2 {
+                        sp.u_in = [0.0, 0.15][pi]; // vapour-like feeds just above the dew pressure
+                    }
+                    mixture_point(&eos, &nm, &sp, &mut tally, &mut goals, &mut failures, &mut counts, &mut keep_pr, &mut pool_pr);
+                }
+            }
+        }
+        for pair in &pc_pairs {
+            for ki in 0..n_k {
+                let kij = ((if ki == 0 { rng.range(-0.08, -0.02) } else { rng.range(-0.08, 0.05) }) * 1e4).round() / 1e4;
+                let eos = pcsaft_kij(&pair[..], kij);
+                let i0 = names.iter().position(|n| n == pair[0]).unwrap();
+                let i1 = names.iter().position(|n| n == pair[1]).unwrap();
+                let (Some(t0), Some(t1)) = (tcs[i0], tcs[i1]) else { continue };
+                let tlow = t0.min(t1);
+                let nm = format!("pcsaft_kij:{kij}:{}", pair.join("|"));
+                systems.push(nm.clone());
+                for pi in 0..n_p {
+                    let mut sp = spec(&mut rng, tlow, 2);
+                    if pi < 2 {
+                        sp.u_in = [0.0, 0.15][pi];
+                    }
+                    mixture_point(&eos, &nm, &sp, &mut tally, &mut goals, &mut failures, &mut counts, &mut keep_pc, &mut pool_pc);
+                }
+            }
+        }
+    }
     // ternaries (PC-SAFT) and Peng-Robinson binary / ternary
     let ternaries: Vec<[&str; 3]> = if full {
         vec![["propane", "butane", "pentane"], ["hexane", "heptane", "octane"], ["benzene", "toluene", "cyclohexane"], ["pentane", "hexane", "benzene"]]
@@ -1123,6 +1291,13 @@ fn main() {
                 let sp = spec(&mut rng, tlow, 3);
                 mixture_point(&eos, &nm, &sp, &mut tally, &mut goals, &mut failures, &mut counts, &mut keep_pc, &mut pool_pc);
             }
+            // one component present only in traces (infinite-dilution calculations)
+            for _ in 0..(if full { 3 * pts } else { pts + 2 }) {
+                let mut sp = spec(&mut rng, tlow, 3);
+                sp.x = trace_composition(3, &mut rng);
+                sp.opts = 0;
+                mixture_point(&eos, &nm, &sp, &mut tally, &mut goals, &mut failures, &mut counts, &mut keep_pc, &mut pool_pc);
+            }
         }
     }
     for n in [2usize, 3] {
@@ -1134,6 +1309,14 @@ fn main() {
             for _ in 0..(if full { 6 * pts } else { pts }) {
                 let sp = spec(&mut rng, tlow, n);
                 mixture_point(&eos, &nm, &sp, &mut tally, &mut goals, &mut failures, &mut counts, &mut keep_pr, &mut pool_pr);
+            }
+            if n == 3 {
+                for _ in 0..(if full { 3 * pts } else { pts }) {
+                    let mut sp = spec(&mut rng, tlow, 3);
+                    sp.x = trace_composition(3, &mut rng);
+                    sp.opts = 0;
+                    mixture_point(&eos, &nm, &sp, &mut tally, &mut goals, &mut failures, &mut counts, &mut keep_pr, &mut pool_pr);
+                }
             }
         }
     }
@@ -1189,6 +1372,17 @@ fn main() {
         let name = format!("step_{ci}.v");
         std::fs::write(format!("{out}/{name}"), v).unwrap();
         step_files.push(json!({"file": name, "steps": cs.iter().map(|(_, m)| m.clone()).collect::<Vec<_>>()}));
+    }
+    let mut trial_files = Vec::new();
+    for (ci, cs) in tie.trial_goals.chunks(12).enumerate() {
+        let mut v = header();
+        v.push_str("Open Scope R_scope.\n");
+        for (g, _) in cs {
+            v.push_str(g);
+        }
+        let name = format!("trial_{ci}.v");
+        std::fs::write(format!("{out}/{name}"), v).unwrap();
+        trial_files.push(json!({"file": name, "trials": cs.iter().map(|(_, m)| m.clone()).collect::<Vec<_>>()}));
     }
     let mut ctrl_files = Vec::new();
     for (ci, cs) in tie.ctrl_cases.chunks(40).enumerate() {
@@ -1260,9 +1454,11 @@ fn main() {
         "cascade": casc_files,
         "sweep": {"flashes_with_initial_state": sw.combos, "found": sw.ok, "delivered_by_the_guess": sw.from_guess, "fell_back_to_the_stability_start_or_failed": sw.fell_back,
                   "largest_composition_difference_to_the_flash_without_initial_state": sw.worst_dx, "feeds_in_pools": pool_pc.len() + pool_pr.len()},
+        "trial_goals": trial_files,
         "step_goals": step_files, "ctrl": ctrl_files, "stab": stab_files, "triv": triv_files,
         "tie": {"feeds_kept": keep_pc.len() + keep_pr.len(), "substitution_steps_seen": tie.n_ss_steps, "newton_steps_seen_inside_minimize_tpd": tie.n_newton_steps,
-                "newton_steps_hooked": tie.n_newton_direct, "steps_consistent_with_both_or_neither_kind_(flag_not_compared)": tie.undetermined_steps, "formula_mismatch": tie.formula_mismatch},
+                "newton_steps_hooked": tie.n_newton_direct, "steps_consistent_with_both_or_neither_kind_(flag_not_compared)": tie.undetermined_steps, "formula_mismatch": tie.formula_mismatch,
+                "trial_states_compared_with_the_model_of_define_trial_state": tie.n_trials_compared, "trial_mismatch": tie.trial_mismatch},
         "support": {
             "systems": systems,
             "mixture_points": counts[0], "envelope_unavailable": counts[1], "points_with_inside_feed": counts[2], "envelope_narrower_than_margins": counts[3],
